@@ -63,10 +63,20 @@ func describeReal(v *val.Val) string {
 
 // StdHost registers: tr (strict tracer), id (strict polymorphic), second / twice (lazy), and the
 // lazy user functions and / or plus strict not behind the keyword operators.
-func StdHost() *Host {
+func StdHost() *Host { return stdHost(true) }
+
+// QuietHost: the same functions without the shared trace (for concurrent scenarios: the harness
+// itself must not introduce shared mutable state).
+func QuietHost() *Host { return stdHost(false) }
+
+func stdHost(trace bool) *Host {
 	tr := []string{}
 	h := &Host{Trace: &tr}
-	logf := func(f string, a ...interface{}) { *h.Trace = append(*h.Trace, fmt.Sprintf(f, a...)) }
+	logf := func(f string, a ...interface{}) {
+		if trace {
+			*h.Trace = append(*h.Trace, fmt.Sprintf(f, a...))
+		}
+	}
 	a := types.TyVar("a")
 	b := types.TyVar("b")
 	ga, gb := gen.Var("a"), gen.Var("b")
